@@ -1,5 +1,5 @@
 // auto-generated: "lalrpop 0.23.1"
-// sha3: b2f0346cdc2042c4c6b09e3bb67268c4f842df85b6adb6f4bea8f1db890ef667
+// sha3: 44759a6c290ffc6e84533a9acb681087079a1d7c02f3993f94705c7c8d27bdaf
 use crate::rt::*;
 #[allow(unused_extern_crates)]
 extern crate lalrpop_util as __lalrpop_util;
@@ -10,7 +10,7 @@ extern crate alloc;
 
 #[rustfmt::skip]
 #[allow(explicit_outlives_requirements, non_snake_case, non_camel_case_types, unused_mut, unused_variables, unused_imports, unused_parens, clippy::needless_lifetimes, clippy::type_complexity, clippy::needless_return, clippy::too_many_arguments, clippy::match_single_binding, clippy::clone_on_copy, clippy::unit_arg)]
-mod __parse__E {
+mod __parse__A {
 
     use crate::rt::*;
     #[allow(unused_extern_crates)]
@@ -20,14 +20,14 @@ mod __parse__E {
     #[allow(unused_extern_crates)]
     extern crate alloc;
     use super::__ToTriple;
-    pub struct EParser {
+    pub struct AParser {
         _priv: (),
     }
 
-    impl Default for EParser { fn default() -> Self { Self::new() } }
-    impl EParser {
-        pub fn new() -> EParser {
-            EParser {
+    impl Default for AParser { fn default() -> Self { Self::new() } }
+    impl AParser {
+        pub fn new() -> AParser {
+            AParser {
                 _priv: (),
             }
         }
@@ -52,7 +52,7 @@ mod __parse__E {
                 (Some(__lookahead), _) => {
                     Err(__lalrpop_util::ParseError::ExtraToken { token: __lookahead })
                 }
-                (None, __Nonterminal::____E((_, __nt, _))) => {
+                (None, __Nonterminal::____A((_, __nt, _))) => {
                     Ok(__nt)
                 }
                 _ => unreachable!(),
@@ -65,10 +65,10 @@ mod __parse__E {
      {
         _40L((i64, i64, i64)),
         _40R((i64, i64, i64)),
-        E((i64, Tree, i64)),
-        F((i64, Tree, i64)),
-        T((i64, Tree, i64)),
-        ____E((i64, Tree, i64)),
+        A((i64, Tree, i64)),
+        B((i64, Tree, i64)),
+        ____A((i64, Tree, i64)),
+        ____B((i64, Tree, i64)),
     }
 
     fn __state0<
@@ -81,19 +81,19 @@ mod __parse__E {
     {
         let mut __result: (Option<(i64, Tok, i64)>, __Nonterminal<>);
         match __lookahead {
-            Some((__loc1, __tok @ Tok('c', _, _, _), __loc2)) => {
+            Some((__loc1, __tok @ Tok('a', _, _, _), __loc2)) => {
+                let __sym0 = (__loc1, (__tok), __loc2);
+                __result = __state5(__tokens, __sym0, core::marker::PhantomData::<()>)?;
+            }
+            Some((__loc1, __tok @ Tok('b', _, _, _), __loc2)) => {
                 let __sym0 = (__loc1, (__tok), __loc2);
                 __result = __state1(__tokens, __sym0, core::marker::PhantomData::<()>)?;
-            }
-            Some((__loc1, __tok @ Tok('e', _, _, _), __loc2)) => {
-                let __sym0 = (__loc1, (__tok), __loc2);
-                __result = __state7(__tokens, __sym0, core::marker::PhantomData::<()>)?;
             }
             _ => {
                 #[allow(clippy::needless_raw_string_hashes)]
                 let __expected = alloc::vec![
-                    r###""(""###.to_string(),
                     r###""x""###.to_string(),
+                    r###""y""###.to_string(),
                 ];
                 return Err(
                     match __lookahead {
@@ -118,14 +118,11 @@ mod __parse__E {
         loop {
             let (__lookahead, __nt) = __result;
             match __nt {
-                __Nonterminal::E(__sym0) => {
+                __Nonterminal::A(__sym0) => {
+                    __result = __state3(__tokens, __lookahead, __sym0, core::marker::PhantomData::<()>)?;
+                }
+                __Nonterminal::B(__sym0) => {
                     __result = __state4(__tokens, __lookahead, __sym0, core::marker::PhantomData::<()>)?;
-                }
-                __Nonterminal::F(__sym0) => {
-                    __result = __state5(__tokens, __lookahead, __sym0, core::marker::PhantomData::<()>)?;
-                }
-                __Nonterminal::T(__sym0) => {
-                    __result = __state6(__tokens, __lookahead, __sym0, core::marker::PhantomData::<()>)?;
                 }
                 _ => {
                     return Ok((__lookahead, __nt));
@@ -150,19 +147,19 @@ mod __parse__E {
         };
         let __sym0 = &mut Some(__sym0);
         match __lookahead {
-            Some((__loc1, __tok @ Tok('c', _, _, _), __loc2)) => {
+            Some((__loc1, __tok @ Tok('a', _, _, _), __loc2)) => {
+                let __sym1 = (__loc1, (__tok), __loc2);
+                __result = __state5(__tokens, __sym1, core::marker::PhantomData::<()>)?;
+            }
+            Some((__loc1, __tok @ Tok('b', _, _, _), __loc2)) => {
                 let __sym1 = (__loc1, (__tok), __loc2);
                 __result = __state1(__tokens, __sym1, core::marker::PhantomData::<()>)?;
-            }
-            Some((__loc1, __tok @ Tok('e', _, _, _), __loc2)) => {
-                let __sym1 = (__loc1, (__tok), __loc2);
-                __result = __state7(__tokens, __sym1, core::marker::PhantomData::<()>)?;
             }
             _ => {
                 #[allow(clippy::needless_raw_string_hashes)]
                 let __expected = alloc::vec![
-                    r###""(""###.to_string(),
                     r###""x""###.to_string(),
+                    r###""y""###.to_string(),
                 ];
                 return Err(
                     match __lookahead {
@@ -194,14 +191,11 @@ mod __parse__E {
             }
             let (__lookahead, __nt) = __result;
             match __nt {
-                __Nonterminal::E(__sym1) => {
-                    __result = __state8(__tokens, __lookahead, __sym0, __sym1, core::marker::PhantomData::<()>)?;
+                __Nonterminal::A(__sym1) => {
+                    __result = __state6(__tokens, __lookahead, __sym0, __sym1, core::marker::PhantomData::<()>)?;
                 }
-                __Nonterminal::F(__sym1) => {
-                    __result = __state5(__tokens, __lookahead, __sym1, core::marker::PhantomData::<()>)?;
-                }
-                __Nonterminal::T(__sym1) => {
-                    __result = __state6(__tokens, __lookahead, __sym1, core::marker::PhantomData::<()>)?;
+                __Nonterminal::B(__sym1) => {
+                    __result = __state4(__tokens, __lookahead, __sym1, core::marker::PhantomData::<()>)?;
                 }
                 _ => {
                     return Ok((__lookahead, __nt));
@@ -225,97 +219,20 @@ mod __parse__E {
             Some(Err(e)) => return Err(e),
             None => None,
         };
-        let __sym0 = &mut Some(__sym0);
-        let __sym1 = &mut Some(__sym1);
         match __lookahead {
-            Some((__loc1, __tok @ Tok('c', _, _, _), __loc2)) => {
+            Some((__loc1, __tok @ Tok('a', _, _, _), __loc2)) => {
+                let __sym2 = (__loc1, (__tok), __loc2);
+                __result = __state5(__tokens, __sym2, core::marker::PhantomData::<()>)?;
+            }
+            Some((__loc1, __tok @ Tok('b', _, _, _), __loc2)) => {
                 let __sym2 = (__loc1, (__tok), __loc2);
                 __result = __state1(__tokens, __sym2, core::marker::PhantomData::<()>)?;
-            }
-            Some((__loc1, __tok @ Tok('e', _, _, _), __loc2)) => {
-                let __sym2 = (__loc1, (__tok), __loc2);
-                __result = __state7(__tokens, __sym2, core::marker::PhantomData::<()>)?;
             }
             _ => {
                 #[allow(clippy::needless_raw_string_hashes)]
                 let __expected = alloc::vec![
-                    r###""(""###.to_string(),
                     r###""x""###.to_string(),
-                ];
-                return Err(
-                    match __lookahead {
-                        Some(__token) => {
-                            __lalrpop_util::ParseError::UnrecognizedToken {
-                                token: __token,
-                                expected: __expected,
-                            }
-                        }
-                        None => {
-                            let __location = 
-                            __sym1.as_ref().map(|sym| sym.2.clone()).unwrap_or_else(|| {
-                                __sym0.as_ref().map(|sym| sym.2.clone()).unwrap_or_else(|| {
-                                    Default::default()
-                                })
-                            })
-                            ;
-                            __lalrpop_util::ParseError::UnrecognizedEof {
-                                location: __location,
-                                expected: __expected,
-                            }
-                        }
-                    }
-                )
-            }
-        }
-        #[allow(clippy::never_loop)]
-        loop {
-            if __sym1.is_none() {
-                return Ok(__result);
-            }
-            let (__lookahead, __nt) = __result;
-            match __nt {
-                __Nonterminal::F(__sym2) => {
-                    __result = __state5(__tokens, __lookahead, __sym2, core::marker::PhantomData::<()>)?;
-                }
-                __Nonterminal::T(__sym2) => {
-                    __result = __state9(__tokens, __lookahead, __sym0, __sym1, __sym2, core::marker::PhantomData::<()>)?;
-                }
-                _ => {
-                    return Ok((__lookahead, __nt));
-                }
-            }
-        }
-    }
-
-    fn __state3<
-        __TOKENS: Iterator<Item=Result<(i64, Tok, i64),__lalrpop_util::ParseError<i64, Tok, u64>>>,
-    >(
-        __tokens: &mut __TOKENS,
-        __sym0: (i64, Tree, i64),
-        __sym1: (i64, Tok, i64),
-        _: core::marker::PhantomData<()>,
-    ) -> Result<(Option<(i64, Tok, i64)>, __Nonterminal<>), __lalrpop_util::ParseError<i64, Tok, u64>>
-    {
-        let mut __result: (Option<(i64, Tok, i64)>, __Nonterminal<>);
-        let __lookahead = match __tokens.next() {
-            Some(Ok(v)) => Some(v),
-            Some(Err(e)) => return Err(e),
-            None => None,
-        };
-        match __lookahead {
-            Some((__loc1, __tok @ Tok('c', _, _, _), __loc2)) => {
-                let __sym2 = (__loc1, (__tok), __loc2);
-                __result = __state1(__tokens, __sym2, core::marker::PhantomData::<()>)?;
-            }
-            Some((__loc1, __tok @ Tok('e', _, _, _), __loc2)) => {
-                let __sym2 = (__loc1, (__tok), __loc2);
-                __result = __state7(__tokens, __sym2, core::marker::PhantomData::<()>)?;
-            }
-            _ => {
-                #[allow(clippy::needless_raw_string_hashes)]
-                let __expected = alloc::vec![
-                    r###""(""###.to_string(),
-                    r###""x""###.to_string(),
+                    r###""y""###.to_string(),
                 ];
                 return Err(
                     match __lookahead {
@@ -340,13 +257,67 @@ mod __parse__E {
         loop {
             let (__lookahead, __nt) = __result;
             match __nt {
-                __Nonterminal::F(__sym2) => {
-                    __result = __state10(__tokens, __lookahead, __sym0, __sym1, __sym2, core::marker::PhantomData::<()>)?;
+                __Nonterminal::B(__sym2) => {
+                    __result = __state7(__tokens, __lookahead, __sym0, __sym1, __sym2, core::marker::PhantomData::<()>)?;
                     return Ok(__result);
                 }
                 _ => {
                     return Ok((__lookahead, __nt));
                 }
+            }
+        }
+    }
+
+    fn __state3<
+        __TOKENS: Iterator<Item=Result<(i64, Tok, i64),__lalrpop_util::ParseError<i64, Tok, u64>>>,
+    >(
+        __tokens: &mut __TOKENS,
+        __lookahead: Option<(i64, Tok, i64)>,
+        __sym0: (i64, Tree, i64),
+        _: core::marker::PhantomData<()>,
+    ) -> Result<(Option<(i64, Tok, i64)>, __Nonterminal<>), __lalrpop_util::ParseError<i64, Tok, u64>>
+    {
+        let mut __result: (Option<(i64, Tok, i64)>, __Nonterminal<>);
+        match __lookahead {
+            Some((__loc1, __tok @ Tok('c', _, _, _), __loc2)) => {
+                let __sym1 = (__loc1, (__tok), __loc2);
+                __result = __state2(__tokens, __sym0, __sym1, core::marker::PhantomData::<()>)?;
+                return Ok(__result);
+            }
+            None => {
+                let __start = __sym0.0.clone();
+                let __end = __sym0.2.clone();
+                let __nt = super::__action0::<>(__sym0);
+                let __nt = __Nonterminal::____A((
+                    __start,
+                    __nt,
+                    __end,
+                ));
+                __result = (__lookahead, __nt);
+                return Ok(__result);
+            }
+            _ => {
+                #[allow(clippy::needless_raw_string_hashes)]
+                let __expected = alloc::vec![
+                    r###""+""###.to_string(),
+                ];
+                return Err(
+                    match __lookahead {
+                        Some(__token) => {
+                            __lalrpop_util::ParseError::UnrecognizedToken {
+                                token: __token,
+                                expected: __expected,
+                            }
+                        }
+                        None => {
+                            let __location = __sym0.2.clone();
+                            __lalrpop_util::ParseError::UnrecognizedEof {
+                                location: __location,
+                                expected: __expected,
+                            }
+                        }
+                    }
+                )
             }
         }
     }
@@ -362,16 +333,13 @@ mod __parse__E {
     {
         let mut __result: (Option<(i64, Tok, i64)>, __Nonterminal<>);
         match __lookahead {
-            Some((__loc1, __tok @ Tok('a', _, _, _), __loc2)) => {
-                let __sym1 = (__loc1, (__tok), __loc2);
-                __result = __state2(__tokens, __sym0, __sym1, core::marker::PhantomData::<()>)?;
-                return Ok(__result);
-            }
+            Some((_, Tok('b', _, _, _), _)) |
+            Some((_, Tok('c', _, _, _), _)) |
             None => {
                 let __start = __sym0.0.clone();
                 let __end = __sym0.2.clone();
-                let __nt = super::__action0::<>(__sym0);
-                let __nt = __Nonterminal::____E((
+                let __nt = super::__action13::<>(__sym0);
+                let __nt = __Nonterminal::A((
                     __start,
                     __nt,
                     __end,
@@ -382,6 +350,589 @@ mod __parse__E {
             _ => {
                 #[allow(clippy::needless_raw_string_hashes)]
                 let __expected = alloc::vec![
+                    r###""y""###.to_string(),
+                    r###""+""###.to_string(),
+                ];
+                return Err(
+                    match __lookahead {
+                        Some(__token) => {
+                            __lalrpop_util::ParseError::UnrecognizedToken {
+                                token: __token,
+                                expected: __expected,
+                            }
+                        }
+                        None => {
+                            let __location = __sym0.2.clone();
+                            __lalrpop_util::ParseError::UnrecognizedEof {
+                                location: __location,
+                                expected: __expected,
+                            }
+                        }
+                    }
+                )
+            }
+        }
+    }
+
+    fn __state5<
+        __TOKENS: Iterator<Item=Result<(i64, Tok, i64),__lalrpop_util::ParseError<i64, Tok, u64>>>,
+    >(
+        __tokens: &mut __TOKENS,
+        __sym0: (i64, Tok, i64),
+        _: core::marker::PhantomData<()>,
+    ) -> Result<(Option<(i64, Tok, i64)>, __Nonterminal<>), __lalrpop_util::ParseError<i64, Tok, u64>>
+    {
+        let mut __result: (Option<(i64, Tok, i64)>, __Nonterminal<>);
+        let __lookahead = match __tokens.next() {
+            Some(Ok(v)) => Some(v),
+            Some(Err(e)) => return Err(e),
+            None => None,
+        };
+        match __lookahead {
+            Some((_, Tok('b', _, _, _), _)) |
+            Some((_, Tok('c', _, _, _), _)) |
+            None => {
+                let __start = __sym0.0.clone();
+                let __end = __sym0.2.clone();
+                let __nt = super::__action14::<>(__sym0);
+                let __nt = __Nonterminal::B((
+                    __start,
+                    __nt,
+                    __end,
+                ));
+                __result = (__lookahead, __nt);
+                return Ok(__result);
+            }
+            _ => {
+                #[allow(clippy::needless_raw_string_hashes)]
+                let __expected = alloc::vec![
+                    r###""y""###.to_string(),
+                    r###""+""###.to_string(),
+                ];
+                return Err(
+                    match __lookahead {
+                        Some(__token) => {
+                            __lalrpop_util::ParseError::UnrecognizedToken {
+                                token: __token,
+                                expected: __expected,
+                            }
+                        }
+                        None => {
+                            let __location = __sym0.2.clone();
+                            __lalrpop_util::ParseError::UnrecognizedEof {
+                                location: __location,
+                                expected: __expected,
+                            }
+                        }
+                    }
+                )
+            }
+        }
+    }
+
+    fn __state6<
+        __TOKENS: Iterator<Item=Result<(i64, Tok, i64),__lalrpop_util::ParseError<i64, Tok, u64>>>,
+    >(
+        __tokens: &mut __TOKENS,
+        __lookahead: Option<(i64, Tok, i64)>,
+        __sym0: &mut Option<(i64, Tok, i64)>,
+        __sym1: (i64, Tree, i64),
+        _: core::marker::PhantomData<()>,
+    ) -> Result<(Option<(i64, Tok, i64)>, __Nonterminal<>), __lalrpop_util::ParseError<i64, Tok, u64>>
+    {
+        let mut __result: (Option<(i64, Tok, i64)>, __Nonterminal<>);
+        match __lookahead {
+            Some((__loc1, __tok @ Tok('c', _, _, _), __loc2)) => {
+                let __sym2 = (__loc1, (__tok), __loc2);
+                __result = __state2(__tokens, __sym1, __sym2, core::marker::PhantomData::<()>)?;
+                return Ok(__result);
+            }
+            Some((__loc1, __tok @ Tok('b', _, _, _), __loc2)) => {
+                let __sym2 = (__loc1, (__tok), __loc2);
+                let __sym0 = __sym0.take().unwrap();
+                __result = __state8(__tokens, __sym0, __sym1, __sym2, core::marker::PhantomData::<()>)?;
+                return Ok(__result);
+            }
+            _ => {
+                #[allow(clippy::needless_raw_string_hashes)]
+                let __expected = alloc::vec![
+                    r###""y""###.to_string(),
+                    r###""+""###.to_string(),
+                ];
+                return Err(
+                    match __lookahead {
+                        Some(__token) => {
+                            __lalrpop_util::ParseError::UnrecognizedToken {
+                                token: __token,
+                                expected: __expected,
+                            }
+                        }
+                        None => {
+                            let __location = __sym1.2.clone();
+                            __lalrpop_util::ParseError::UnrecognizedEof {
+                                location: __location,
+                                expected: __expected,
+                            }
+                        }
+                    }
+                )
+            }
+        }
+    }
+
+    fn __state7<
+        __TOKENS: Iterator<Item=Result<(i64, Tok, i64),__lalrpop_util::ParseError<i64, Tok, u64>>>,
+    >(
+        __tokens: &mut __TOKENS,
+        __lookahead: Option<(i64, Tok, i64)>,
+        __sym0: (i64, Tree, i64),
+        __sym1: (i64, Tok, i64),
+        __sym2: (i64, Tree, i64),
+        _: core::marker::PhantomData<()>,
+    ) -> Result<(Option<(i64, Tok, i64)>, __Nonterminal<>), __lalrpop_util::ParseError<i64, Tok, u64>>
+    {
+        let mut __result: (Option<(i64, Tok, i64)>, __Nonterminal<>);
+        match __lookahead {
+            Some((_, Tok('b', _, _, _), _)) |
+            Some((_, Tok('c', _, _, _), _)) |
+            None => {
+                let __start = __sym0.0.clone();
+                let __end = __sym2.2.clone();
+                let __nt = super::__action12::<>(__sym0, __sym1, __sym2);
+                let __nt = __Nonterminal::A((
+                    __start,
+                    __nt,
+                    __end,
+                ));
+                __result = (__lookahead, __nt);
+                return Ok(__result);
+            }
+            _ => {
+                #[allow(clippy::needless_raw_string_hashes)]
+                let __expected = alloc::vec![
+                    r###""y""###.to_string(),
+                    r###""+""###.to_string(),
+                ];
+                return Err(
+                    match __lookahead {
+                        Some(__token) => {
+                            __lalrpop_util::ParseError::UnrecognizedToken {
+                                token: __token,
+                                expected: __expected,
+                            }
+                        }
+                        None => {
+                            let __location = __sym2.2.clone();
+                            __lalrpop_util::ParseError::UnrecognizedEof {
+                                location: __location,
+                                expected: __expected,
+                            }
+                        }
+                    }
+                )
+            }
+        }
+    }
+
+    fn __state8<
+        __TOKENS: Iterator<Item=Result<(i64, Tok, i64),__lalrpop_util::ParseError<i64, Tok, u64>>>,
+    >(
+        __tokens: &mut __TOKENS,
+        __sym0: (i64, Tok, i64),
+        __sym1: (i64, Tree, i64),
+        __sym2: (i64, Tok, i64),
+        _: core::marker::PhantomData<()>,
+    ) -> Result<(Option<(i64, Tok, i64)>, __Nonterminal<>), __lalrpop_util::ParseError<i64, Tok, u64>>
+    {
+        let mut __result: (Option<(i64, Tok, i64)>, __Nonterminal<>);
+        let __lookahead = match __tokens.next() {
+            Some(Ok(v)) => Some(v),
+            Some(Err(e)) => return Err(e),
+            None => None,
+        };
+        match __lookahead {
+            Some((_, Tok('b', _, _, _), _)) |
+            Some((_, Tok('c', _, _, _), _)) |
+            None => {
+                let __start = __sym0.0.clone();
+                let __end = __sym2.2.clone();
+                let __nt = super::__action15::<>(__sym0, __sym1, __sym2);
+                let __nt = __Nonterminal::B((
+                    __start,
+                    __nt,
+                    __end,
+                ));
+                __result = (__lookahead, __nt);
+                return Ok(__result);
+            }
+            _ => {
+                #[allow(clippy::needless_raw_string_hashes)]
+                let __expected = alloc::vec![
+                    r###""y""###.to_string(),
+                    r###""+""###.to_string(),
+                ];
+                return Err(
+                    match __lookahead {
+                        Some(__token) => {
+                            __lalrpop_util::ParseError::UnrecognizedToken {
+                                token: __token,
+                                expected: __expected,
+                            }
+                        }
+                        None => {
+                            let __location = __sym2.2.clone();
+                            __lalrpop_util::ParseError::UnrecognizedEof {
+                                location: __location,
+                                expected: __expected,
+                            }
+                        }
+                    }
+                )
+            }
+        }
+    }
+}
+#[allow(unused_imports)]
+pub use self::__parse__A::AParser;
+
+#[rustfmt::skip]
+#[allow(explicit_outlives_requirements, non_snake_case, non_camel_case_types, unused_mut, unused_variables, unused_imports, unused_parens, clippy::needless_lifetimes, clippy::type_complexity, clippy::needless_return, clippy::too_many_arguments, clippy::match_single_binding, clippy::clone_on_copy, clippy::unit_arg)]
+mod __parse__B {
+
+    use crate::rt::*;
+    #[allow(unused_extern_crates)]
+    extern crate lalrpop_util as __lalrpop_util;
+    #[allow(unused_imports)]
+    use self::__lalrpop_util::state_machine as __state_machine;
+    #[allow(unused_extern_crates)]
+    extern crate alloc;
+    use super::__ToTriple;
+    pub struct BParser {
+        _priv: (),
+    }
+
+    impl Default for BParser { fn default() -> Self { Self::new() } }
+    impl BParser {
+        pub fn new() -> BParser {
+            BParser {
+                _priv: (),
+            }
+        }
+
+        #[allow(dead_code)]
+        pub fn parse<
+            __TOKEN: __ToTriple<>,
+            __TOKENS: IntoIterator<Item=__TOKEN>,
+        >(
+            &self,
+            __tokens0: __TOKENS,
+        ) -> Result<Tree, __lalrpop_util::ParseError<i64, Tok, u64>>
+        {
+            let __tokens = __tokens0.into_iter();
+            let mut __tokens = __tokens.map(|t| __ToTriple::to_triple(t));
+            let __lookahead = match __tokens.next() {
+                Some(Ok(v)) => Some(v),
+                Some(Err(e)) => return Err(e),
+                None => None,
+            };
+            match __state0(&mut __tokens, __lookahead, core::marker::PhantomData::<()>)? {
+                (Some(__lookahead), _) => {
+                    Err(__lalrpop_util::ParseError::ExtraToken { token: __lookahead })
+                }
+                (None, __Nonterminal::____B((_, __nt, _))) => {
+                    Ok(__nt)
+                }
+                _ => unreachable!(),
+            }
+        }
+    }
+
+    #[allow(dead_code)]
+    enum __Nonterminal<>
+     {
+        _40L((i64, i64, i64)),
+        _40R((i64, i64, i64)),
+        A((i64, Tree, i64)),
+        B((i64, Tree, i64)),
+        ____A((i64, Tree, i64)),
+        ____B((i64, Tree, i64)),
+    }
+
+    fn __state0<
+        __TOKENS: Iterator<Item=Result<(i64, Tok, i64),__lalrpop_util::ParseError<i64, Tok, u64>>>,
+    >(
+        __tokens: &mut __TOKENS,
+        __lookahead: Option<(i64, Tok, i64)>,
+        _: core::marker::PhantomData<()>,
+    ) -> Result<(Option<(i64, Tok, i64)>, __Nonterminal<>), __lalrpop_util::ParseError<i64, Tok, u64>>
+    {
+        let mut __result: (Option<(i64, Tok, i64)>, __Nonterminal<>);
+        match __lookahead {
+            Some((__loc1, __tok @ Tok('a', _, _, _), __loc2)) => {
+                let __sym0 = (__loc1, (__tok), __loc2);
+                __result = __state4(__tokens, __sym0, core::marker::PhantomData::<()>)?;
+            }
+            Some((__loc1, __tok @ Tok('b', _, _, _), __loc2)) => {
+                let __sym0 = (__loc1, (__tok), __loc2);
+                __result = __state1(__tokens, __sym0, core::marker::PhantomData::<()>)?;
+            }
+            _ => {
+                #[allow(clippy::needless_raw_string_hashes)]
+                let __expected = alloc::vec![
+                    r###""x""###.to_string(),
+                    r###""y""###.to_string(),
+                ];
+                return Err(
+                    match __lookahead {
+                        Some(__token) => {
+                            __lalrpop_util::ParseError::UnrecognizedToken {
+                                token: __token,
+                                expected: __expected,
+                            }
+                        }
+                        None => {
+                            let __location = Default::default();
+                            __lalrpop_util::ParseError::UnrecognizedEof {
+                                location: __location,
+                                expected: __expected,
+                            }
+                        }
+                    }
+                )
+            }
+        }
+        #[allow(clippy::never_loop)]
+        loop {
+            let (__lookahead, __nt) = __result;
+            match __nt {
+                __Nonterminal::B(__sym0) => {
+                    __result = __state3(__tokens, __lookahead, __sym0, core::marker::PhantomData::<()>)?;
+                }
+                _ => {
+                    return Ok((__lookahead, __nt));
+                }
+            }
+        }
+    }
+
+    fn __state1<
+        __TOKENS: Iterator<Item=Result<(i64, Tok, i64),__lalrpop_util::ParseError<i64, Tok, u64>>>,
+    >(
+        __tokens: &mut __TOKENS,
+        __sym0: (i64, Tok, i64),
+        _: core::marker::PhantomData<()>,
+    ) -> Result<(Option<(i64, Tok, i64)>, __Nonterminal<>), __lalrpop_util::ParseError<i64, Tok, u64>>
+    {
+        let mut __result: (Option<(i64, Tok, i64)>, __Nonterminal<>);
+        let __lookahead = match __tokens.next() {
+            Some(Ok(v)) => Some(v),
+            Some(Err(e)) => return Err(e),
+            None => None,
+        };
+        let __sym0 = &mut Some(__sym0);
+        match __lookahead {
+            Some((__loc1, __tok @ Tok('a', _, _, _), __loc2)) => {
+                let __sym1 = (__loc1, (__tok), __loc2);
+                __result = __state4(__tokens, __sym1, core::marker::PhantomData::<()>)?;
+            }
+            Some((__loc1, __tok @ Tok('b', _, _, _), __loc2)) => {
+                let __sym1 = (__loc1, (__tok), __loc2);
+                __result = __state1(__tokens, __sym1, core::marker::PhantomData::<()>)?;
+            }
+            _ => {
+                #[allow(clippy::needless_raw_string_hashes)]
+                let __expected = alloc::vec![
+                    r###""x""###.to_string(),
+                    r###""y""###.to_string(),
+                ];
+                return Err(
+                    match __lookahead {
+                        Some(__token) => {
+                            __lalrpop_util::ParseError::UnrecognizedToken {
+                                token: __token,
+                                expected: __expected,
+                            }
+                        }
+                        None => {
+                            let __location = 
+                            __sym0.as_ref().map(|sym| sym.2.clone()).unwrap_or_else(|| {
+                                Default::default()
+                            })
+                            ;
+                            __lalrpop_util::ParseError::UnrecognizedEof {
+                                location: __location,
+                                expected: __expected,
+                            }
+                        }
+                    }
+                )
+            }
+        }
+        #[allow(clippy::never_loop)]
+        loop {
+            if __sym0.is_none() {
+                return Ok(__result);
+            }
+            let (__lookahead, __nt) = __result;
+            match __nt {
+                __Nonterminal::A(__sym1) => {
+                    __result = __state5(__tokens, __lookahead, __sym0, __sym1, core::marker::PhantomData::<()>)?;
+                }
+                __Nonterminal::B(__sym1) => {
+                    __result = __state6(__tokens, __lookahead, __sym1, core::marker::PhantomData::<()>)?;
+                }
+                _ => {
+                    return Ok((__lookahead, __nt));
+                }
+            }
+        }
+    }
+
+    fn __state2<
+        __TOKENS: Iterator<Item=Result<(i64, Tok, i64),__lalrpop_util::ParseError<i64, Tok, u64>>>,
+    >(
+        __tokens: &mut __TOKENS,
+        __sym0: (i64, Tree, i64),
+        __sym1: (i64, Tok, i64),
+        _: core::marker::PhantomData<()>,
+    ) -> Result<(Option<(i64, Tok, i64)>, __Nonterminal<>), __lalrpop_util::ParseError<i64, Tok, u64>>
+    {
+        let mut __result: (Option<(i64, Tok, i64)>, __Nonterminal<>);
+        let __lookahead = match __tokens.next() {
+            Some(Ok(v)) => Some(v),
+            Some(Err(e)) => return Err(e),
+            None => None,
+        };
+        match __lookahead {
+            Some((__loc1, __tok @ Tok('a', _, _, _), __loc2)) => {
+                let __sym2 = (__loc1, (__tok), __loc2);
+                __result = __state4(__tokens, __sym2, core::marker::PhantomData::<()>)?;
+            }
+            Some((__loc1, __tok @ Tok('b', _, _, _), __loc2)) => {
+                let __sym2 = (__loc1, (__tok), __loc2);
+                __result = __state1(__tokens, __sym2, core::marker::PhantomData::<()>)?;
+            }
+            _ => {
+                #[allow(clippy::needless_raw_string_hashes)]
+                let __expected = alloc::vec![
+                    r###""x""###.to_string(),
+                    r###""y""###.to_string(),
+                ];
+                return Err(
+                    match __lookahead {
+                        Some(__token) => {
+                            __lalrpop_util::ParseError::UnrecognizedToken {
+                                token: __token,
+                                expected: __expected,
+                            }
+                        }
+                        None => {
+                            let __location = __sym1.2.clone();
+                            __lalrpop_util::ParseError::UnrecognizedEof {
+                                location: __location,
+                                expected: __expected,
+                            }
+                        }
+                    }
+                )
+            }
+        }
+        #[allow(clippy::never_loop)]
+        loop {
+            let (__lookahead, __nt) = __result;
+            match __nt {
+                __Nonterminal::B(__sym2) => {
+                    __result = __state8(__tokens, __lookahead, __sym0, __sym1, __sym2, core::marker::PhantomData::<()>)?;
+                    return Ok(__result);
+                }
+                _ => {
+                    return Ok((__lookahead, __nt));
+                }
+            }
+        }
+    }
+
+    fn __state3<
+        __TOKENS: Iterator<Item=Result<(i64, Tok, i64),__lalrpop_util::ParseError<i64, Tok, u64>>>,
+    >(
+        __tokens: &mut __TOKENS,
+        __lookahead: Option<(i64, Tok, i64)>,
+        __sym0: (i64, Tree, i64),
+        _: core::marker::PhantomData<()>,
+    ) -> Result<(Option<(i64, Tok, i64)>, __Nonterminal<>), __lalrpop_util::ParseError<i64, Tok, u64>>
+    {
+        let mut __result: (Option<(i64, Tok, i64)>, __Nonterminal<>);
+        match __lookahead {
+            None => {
+                let __start = __sym0.0.clone();
+                let __end = __sym0.2.clone();
+                let __nt = super::__action1::<>(__sym0);
+                let __nt = __Nonterminal::____B((
+                    __start,
+                    __nt,
+                    __end,
+                ));
+                __result = (__lookahead, __nt);
+                return Ok(__result);
+            }
+            _ => {
+                #[allow(clippy::needless_raw_string_hashes)]
+                let __expected = alloc::vec![
+                ];
+                return Err(
+                    match __lookahead {
+                        Some(__token) => {
+                            __lalrpop_util::ParseError::UnrecognizedToken {
+                                token: __token,
+                                expected: __expected,
+                            }
+                        }
+                        None => {
+                            let __location = __sym0.2.clone();
+                            __lalrpop_util::ParseError::UnrecognizedEof {
+                                location: __location,
+                                expected: __expected,
+                            }
+                        }
+                    }
+                )
+            }
+        }
+    }
+
+    fn __state4<
+        __TOKENS: Iterator<Item=Result<(i64, Tok, i64),__lalrpop_util::ParseError<i64, Tok, u64>>>,
+    >(
+        __tokens: &mut __TOKENS,
+        __sym0: (i64, Tok, i64),
+        _: core::marker::PhantomData<()>,
+    ) -> Result<(Option<(i64, Tok, i64)>, __Nonterminal<>), __lalrpop_util::ParseError<i64, Tok, u64>>
+    {
+        let mut __result: (Option<(i64, Tok, i64)>, __Nonterminal<>);
+        let __lookahead = match __tokens.next() {
+            Some(Ok(v)) => Some(v),
+            Some(Err(e)) => return Err(e),
+            None => None,
+        };
+        match __lookahead {
+            Some((_, Tok('b', _, _, _), _)) |
+            Some((_, Tok('c', _, _, _), _)) |
+            None => {
+                let __start = __sym0.0.clone();
+                let __end = __sym0.2.clone();
+                let __nt = super::__action14::<>(__sym0);
+                let __nt = __Nonterminal::B((
+                    __start,
+                    __nt,
+                    __end,
+                ));
+                __result = (__lookahead, __nt);
+                return Ok(__result);
+            }
+            _ => {
+                #[allow(clippy::needless_raw_string_hashes)]
+                let __expected = alloc::vec![
+                    r###""y""###.to_string(),
                     r###""+""###.to_string(),
                 ];
                 return Err(
@@ -410,33 +961,29 @@ mod __parse__E {
     >(
         __tokens: &mut __TOKENS,
         __lookahead: Option<(i64, Tok, i64)>,
-        __sym0: (i64, Tree, i64),
+        __sym0: &mut Option<(i64, Tok, i64)>,
+        __sym1: (i64, Tree, i64),
         _: core::marker::PhantomData<()>,
     ) -> Result<(Option<(i64, Tok, i64)>, __Nonterminal<>), __lalrpop_util::ParseError<i64, Tok, u64>>
     {
         let mut __result: (Option<(i64, Tok, i64)>, __Nonterminal<>);
         match __lookahead {
-            Some((_, Tok('a', _, _, _), _)) |
-            Some((_, Tok('b', _, _, _), _)) |
-            Some((_, Tok('d', _, _, _), _)) |
-            None => {
-                let __start = __sym0.0.clone();
-                let __end = __sym0.2.clone();
-                let __nt = super::__action20::<>(__sym0);
-                let __nt = __Nonterminal::T((
-                    __start,
-                    __nt,
-                    __end,
-                ));
-                __result = (__lookahead, __nt);
+            Some((__loc1, __tok @ Tok('c', _, _, _), __loc2)) => {
+                let __sym2 = (__loc1, (__tok), __loc2);
+                __result = __state2(__tokens, __sym1, __sym2, core::marker::PhantomData::<()>)?;
+                return Ok(__result);
+            }
+            Some((__loc1, __tok @ Tok('b', _, _, _), __loc2)) => {
+                let __sym2 = (__loc1, (__tok), __loc2);
+                let __sym0 = __sym0.take().unwrap();
+                __result = __state7(__tokens, __sym0, __sym1, __sym2, core::marker::PhantomData::<()>)?;
                 return Ok(__result);
             }
             _ => {
                 #[allow(clippy::needless_raw_string_hashes)]
                 let __expected = alloc::vec![
+                    r###""y""###.to_string(),
                     r###""+""###.to_string(),
-                    r###""*""###.to_string(),
-                    r###"")""###.to_string(),
                 ];
                 return Err(
                     match __lookahead {
@@ -447,7 +994,7 @@ mod __parse__E {
                             }
                         }
                         None => {
-                            let __location = __sym0.2.clone();
+                            let __location = __sym1.2.clone();
                             __lalrpop_util::ParseError::UnrecognizedEof {
                                 location: __location,
                                 expected: __expected,
@@ -470,18 +1017,12 @@ mod __parse__E {
     {
         let mut __result: (Option<(i64, Tok, i64)>, __Nonterminal<>);
         match __lookahead {
-            Some((__loc1, __tok @ Tok('b', _, _, _), __loc2)) => {
-                let __sym1 = (__loc1, (__tok), __loc2);
-                __result = __state3(__tokens, __sym0, __sym1, core::marker::PhantomData::<()>)?;
-                return Ok(__result);
-            }
-            Some((_, Tok('a', _, _, _), _)) |
-            Some((_, Tok('d', _, _, _), _)) |
-            None => {
+            Some((_, Tok('b', _, _, _), _)) |
+            Some((_, Tok('c', _, _, _), _)) => {
                 let __start = __sym0.0.clone();
                 let __end = __sym0.2.clone();
-                let __nt = super::__action16::<>(__sym0);
-                let __nt = __Nonterminal::E((
+                let __nt = super::__action13::<>(__sym0);
+                let __nt = __Nonterminal::A((
                     __start,
                     __nt,
                     __end,
@@ -492,9 +1033,8 @@ mod __parse__E {
             _ => {
                 #[allow(clippy::needless_raw_string_hashes)]
                 let __expected = alloc::vec![
+                    r###""y""###.to_string(),
                     r###""+""###.to_string(),
-                    r###""*""###.to_string(),
-                    r###"")""###.to_string(),
                 ];
                 return Err(
                     match __lookahead {
@@ -522,6 +1062,8 @@ mod __parse__E {
     >(
         __tokens: &mut __TOKENS,
         __sym0: (i64, Tok, i64),
+        __sym1: (i64, Tree, i64),
+        __sym2: (i64, Tok, i64),
         _: core::marker::PhantomData<()>,
     ) -> Result<(Option<(i64, Tok, i64)>, __Nonterminal<>), __lalrpop_util::ParseError<i64, Tok, u64>>
     {
@@ -532,14 +1074,13 @@ mod __parse__E {
             None => None,
         };
         match __lookahead {
-            Some((_, Tok('a', _, _, _), _)) |
             Some((_, Tok('b', _, _, _), _)) |
-            Some((_, Tok('d', _, _, _), _)) |
+            Some((_, Tok('c', _, _, _), _)) |
             None => {
                 let __start = __sym0.0.clone();
-                let __end = __sym0.2.clone();
-                let __nt = super::__action18::<>(__sym0);
-                let __nt = __Nonterminal::F((
+                let __end = __sym2.2.clone();
+                let __nt = super::__action15::<>(__sym0, __sym1, __sym2);
+                let __nt = __Nonterminal::B((
                     __start,
                     __nt,
                     __end,
@@ -550,9 +1091,8 @@ mod __parse__E {
             _ => {
                 #[allow(clippy::needless_raw_string_hashes)]
                 let __expected = alloc::vec![
+                    r###""y""###.to_string(),
                     r###""+""###.to_string(),
-                    r###""*""###.to_string(),
-                    r###"")""###.to_string(),
                 ];
                 return Err(
                     match __lookahead {
@@ -563,7 +1103,7 @@ mod __parse__E {
                             }
                         }
                         None => {
-                            let __location = __sym0.2.clone();
+                            let __location = __sym2.2.clone();
                             __lalrpop_util::ParseError::UnrecognizedEof {
                                 location: __location,
                                 expected: __expected,
@@ -580,118 +1120,6 @@ mod __parse__E {
     >(
         __tokens: &mut __TOKENS,
         __lookahead: Option<(i64, Tok, i64)>,
-        __sym0: &mut Option<(i64, Tok, i64)>,
-        __sym1: (i64, Tree, i64),
-        _: core::marker::PhantomData<()>,
-    ) -> Result<(Option<(i64, Tok, i64)>, __Nonterminal<>), __lalrpop_util::ParseError<i64, Tok, u64>>
-    {
-        let mut __result: (Option<(i64, Tok, i64)>, __Nonterminal<>);
-        match __lookahead {
-            Some((__loc1, __tok @ Tok('d', _, _, _), __loc2)) => {
-                let __sym2 = (__loc1, (__tok), __loc2);
-                let __sym0 = __sym0.take().unwrap();
-                __result = __state11(__tokens, __sym0, __sym1, __sym2, core::marker::PhantomData::<()>)?;
-                return Ok(__result);
-            }
-            Some((__loc1, __tok @ Tok('a', _, _, _), __loc2)) => {
-                let __sym2 = (__loc1, (__tok), __loc2);
-                __result = __state2(__tokens, __sym1, __sym2, core::marker::PhantomData::<()>)?;
-                return Ok(__result);
-            }
-            _ => {
-                #[allow(clippy::needless_raw_string_hashes)]
-                let __expected = alloc::vec![
-                    r###""+""###.to_string(),
-                    r###"")""###.to_string(),
-                ];
-                return Err(
-                    match __lookahead {
-                        Some(__token) => {
-                            __lalrpop_util::ParseError::UnrecognizedToken {
-                                token: __token,
-                                expected: __expected,
-                            }
-                        }
-                        None => {
-                            let __location = __sym1.2.clone();
-                            __lalrpop_util::ParseError::UnrecognizedEof {
-                                location: __location,
-                                expected: __expected,
-                            }
-                        }
-                    }
-                )
-            }
-        }
-    }
-
-    fn __state9<
-        __TOKENS: Iterator<Item=Result<(i64, Tok, i64),__lalrpop_util::ParseError<i64, Tok, u64>>>,
-    >(
-        __tokens: &mut __TOKENS,
-        __lookahead: Option<(i64, Tok, i64)>,
-        __sym0: &mut Option<(i64, Tree, i64)>,
-        __sym1: &mut Option<(i64, Tok, i64)>,
-        __sym2: (i64, Tree, i64),
-        _: core::marker::PhantomData<()>,
-    ) -> Result<(Option<(i64, Tok, i64)>, __Nonterminal<>), __lalrpop_util::ParseError<i64, Tok, u64>>
-    {
-        let mut __result: (Option<(i64, Tok, i64)>, __Nonterminal<>);
-        match __lookahead {
-            Some((__loc1, __tok @ Tok('b', _, _, _), __loc2)) => {
-                let __sym3 = (__loc1, (__tok), __loc2);
-                __result = __state3(__tokens, __sym2, __sym3, core::marker::PhantomData::<()>)?;
-                return Ok(__result);
-            }
-            Some((_, Tok('a', _, _, _), _)) |
-            Some((_, Tok('d', _, _, _), _)) |
-            None => {
-                let __sym0 = __sym0.take().unwrap();
-                let __sym1 = __sym1.take().unwrap();
-                let __start = __sym0.0.clone();
-                let __end = __sym2.2.clone();
-                let __nt = super::__action15::<>(__sym0, __sym1, __sym2);
-                let __nt = __Nonterminal::E((
-                    __start,
-                    __nt,
-                    __end,
-                ));
-                __result = (__lookahead, __nt);
-                return Ok(__result);
-            }
-            _ => {
-                #[allow(clippy::needless_raw_string_hashes)]
-                let __expected = alloc::vec![
-                    r###""+""###.to_string(),
-                    r###""*""###.to_string(),
-                    r###"")""###.to_string(),
-                ];
-                return Err(
-                    match __lookahead {
-                        Some(__token) => {
-                            __lalrpop_util::ParseError::UnrecognizedToken {
-                                token: __token,
-                                expected: __expected,
-                            }
-                        }
-                        None => {
-                            let __location = __sym2.2.clone();
-                            __lalrpop_util::ParseError::UnrecognizedEof {
-                                location: __location,
-                                expected: __expected,
-                            }
-                        }
-                    }
-                )
-            }
-        }
-    }
-
-    fn __state10<
-        __TOKENS: Iterator<Item=Result<(i64, Tok, i64),__lalrpop_util::ParseError<i64, Tok, u64>>>,
-    >(
-        __tokens: &mut __TOKENS,
-        __lookahead: Option<(i64, Tok, i64)>,
         __sym0: (i64, Tree, i64),
         __sym1: (i64, Tok, i64),
         __sym2: (i64, Tree, i64),
@@ -700,14 +1128,12 @@ mod __parse__E {
     {
         let mut __result: (Option<(i64, Tok, i64)>, __Nonterminal<>);
         match __lookahead {
-            Some((_, Tok('a', _, _, _), _)) |
             Some((_, Tok('b', _, _, _), _)) |
-            Some((_, Tok('d', _, _, _), _)) |
-            None => {
+            Some((_, Tok('c', _, _, _), _)) => {
                 let __start = __sym0.0.clone();
                 let __end = __sym2.2.clone();
-                let __nt = super::__action19::<>(__sym0, __sym1, __sym2);
-                let __nt = __Nonterminal::T((
+                let __nt = super::__action12::<>(__sym0, __sym1, __sym2);
+                let __nt = __Nonterminal::A((
                     __start,
                     __nt,
                     __end,
@@ -718,69 +1144,8 @@ mod __parse__E {
             _ => {
                 #[allow(clippy::needless_raw_string_hashes)]
                 let __expected = alloc::vec![
+                    r###""y""###.to_string(),
                     r###""+""###.to_string(),
-                    r###""*""###.to_string(),
-                    r###"")""###.to_string(),
-                ];
-                return Err(
-                    match __lookahead {
-                        Some(__token) => {
-                            __lalrpop_util::ParseError::UnrecognizedToken {
-                                token: __token,
-                                expected: __expected,
-                            }
-                        }
-                        None => {
-                            let __location = __sym2.2.clone();
-                            __lalrpop_util::ParseError::UnrecognizedEof {
-                                location: __location,
-                                expected: __expected,
-                            }
-                        }
-                    }
-                )
-            }
-        }
-    }
-
-    fn __state11<
-        __TOKENS: Iterator<Item=Result<(i64, Tok, i64),__lalrpop_util::ParseError<i64, Tok, u64>>>,
-    >(
-        __tokens: &mut __TOKENS,
-        __sym0: (i64, Tok, i64),
-        __sym1: (i64, Tree, i64),
-        __sym2: (i64, Tok, i64),
-        _: core::marker::PhantomData<()>,
-    ) -> Result<(Option<(i64, Tok, i64)>, __Nonterminal<>), __lalrpop_util::ParseError<i64, Tok, u64>>
-    {
-        let mut __result: (Option<(i64, Tok, i64)>, __Nonterminal<>);
-        let __lookahead = match __tokens.next() {
-            Some(Ok(v)) => Some(v),
-            Some(Err(e)) => return Err(e),
-            None => None,
-        };
-        match __lookahead {
-            Some((_, Tok('a', _, _, _), _)) |
-            Some((_, Tok('b', _, _, _), _)) |
-            Some((_, Tok('d', _, _, _), _)) |
-            None => {
-                let __start = __sym0.0.clone();
-                let __end = __sym2.2.clone();
-                let __nt = super::__action17::<>(__sym0, __sym1, __sym2);
-                let __nt = __Nonterminal::F((
-                    __start,
-                    __nt,
-                    __end,
-                ));
-                __result = (__lookahead, __nt);
-                return Ok(__result);
-            }
-            _ => {
-                #[allow(clippy::needless_raw_string_hashes)]
-                let __expected = alloc::vec![
-                    r###""+""###.to_string(),
-                    r###""*""###.to_string(),
-                    r###"")""###.to_string(),
                 ];
                 return Err(
                     match __lookahead {
@@ -804,7 +1169,7 @@ mod __parse__E {
     }
 }
 #[allow(unused_imports)]
-pub use self::__parse__E::EParser;
+pub use self::__parse__B::BParser;
 
 #[allow(clippy::too_many_arguments, clippy::needless_lifetimes, clippy::just_underscores_and_digits, clippy::extra_unused_type_parameters)]
 fn __action0<
@@ -818,14 +1183,10 @@ fn __action0<
 #[allow(clippy::too_many_arguments, clippy::needless_lifetimes, clippy::just_underscores_and_digits, clippy::extra_unused_type_parameters)]
 fn __action1<
 >(
-    (_, l, _): (i64, i64, i64),
-    (_, c0, _): (i64, Tree, i64),
-    (_, c1, _): (i64, Tok, i64),
-    (_, c2, _): (i64, Tree, i64),
-    (_, r, _): (i64, i64, i64),
+    (_, __0, _): (i64, Tree, i64),
 ) -> Tree
 {
-    node("E#0", l, r, vec![Tree::from(c0), Tree::from(c1), Tree::from(c2)])
+    __0
 }
 
 #[allow(clippy::too_many_arguments, clippy::needless_lifetimes, clippy::just_underscores_and_digits, clippy::extra_unused_type_parameters)]
@@ -833,65 +1194,56 @@ fn __action2<
 >(
     (_, l, _): (i64, i64, i64),
     (_, c0, _): (i64, Tree, i64),
-    (_, pR1, _): (i64, i64, i64),
+    (_, pL1, _): (i64, i64, i64),
+    (_, c1, _): (i64, Tok, i64),
+    (_, c2, _): (i64, Tree, i64),
     (_, r, _): (i64, i64, i64),
 ) -> Tree
 {
-    { probe("E#1", 1, 'R', pR1); node("E#1", l, r, vec![Tree::from(c0)]) }
+    { probe("A#0", 1, 'L', pL1); node("A#0", l, r, vec![Tree::from(c0), Tree::from(c1), Tree::from(c2)]) }
 }
 
 #[allow(clippy::too_many_arguments, clippy::needless_lifetimes, clippy::just_underscores_and_digits, clippy::extra_unused_type_parameters)]
 fn __action3<
 >(
     (_, l, _): (i64, i64, i64),
-    (_, pR0, _): (i64, i64, i64),
     (_, c0, _): (i64, Tree, i64),
-    (_, c1, _): (i64, Tok, i64),
-    (_, c2, _): (i64, Tree, i64),
+    (_, pR1, _): (i64, i64, i64),
     (_, r, _): (i64, i64, i64),
 ) -> Tree
 {
-    { probe("T#0", 0, 'R', pR0); node("T#0", l, r, vec![Tree::from(c0), Tree::from(c1), Tree::from(c2)]) }
+    { probe("A#1", 1, 'R', pR1); node("A#1", l, r, vec![Tree::from(c0)]) }
 }
 
 #[allow(clippy::too_many_arguments, clippy::needless_lifetimes, clippy::just_underscores_and_digits, clippy::extra_unused_type_parameters)]
 fn __action4<
 >(
     (_, l, _): (i64, i64, i64),
-    (_, c0, _): (i64, Tree, i64),
+    (_, pR0, _): (i64, i64, i64),
+    (_, c0, _): (i64, Tok, i64),
     (_, r, _): (i64, i64, i64),
 ) -> Tree
 {
-    node("T#1", l, r, vec![Tree::from(c0)])
+    { probe("B#0", 0, 'R', pR0); node("B#0", l, r, vec![Tree::from(c0)]) }
 }
 
 #[allow(clippy::too_many_arguments, clippy::needless_lifetimes, clippy::just_underscores_and_digits, clippy::extra_unused_type_parameters)]
 fn __action5<
 >(
     (_, l, _): (i64, i64, i64),
+    (_, pL0, _): (i64, i64, i64),
     (_, c0, _): (i64, Tok, i64),
     (_, c1, _): (i64, Tree, i64),
     (_, c2, _): (i64, Tok, i64),
+    (_, pL3, _): (i64, i64, i64),
     (_, r, _): (i64, i64, i64),
 ) -> Tree
 {
-    node("F#0", l, r, vec![Tree::from(c0), Tree::from(c1), Tree::from(c2)])
-}
-
-#[allow(clippy::too_many_arguments, clippy::needless_lifetimes, clippy::just_underscores_and_digits, clippy::extra_unused_type_parameters)]
-fn __action6<
->(
-    (_, l, _): (i64, i64, i64),
-    (_, c0, _): (i64, Tok, i64),
-    (_, pL1, _): (i64, i64, i64),
-    (_, r, _): (i64, i64, i64),
-) -> Tree
-{
-    { probe("F#1", 1, 'L', pL1); node("F#1", l, r, vec![Tree::from(c0)]) }
+    { probe("B#1", 0, 'L', pL0); probe("B#1", 3, 'L', pL3); node("B#1", l, r, vec![Tree::from(c0), Tree::from(c1), Tree::from(c2)]) }
 }
 
 #[allow(clippy::needless_lifetimes, clippy::clone_on_copy)]
-fn __action7<
+fn __action6<
 >(
     __lookbehind: &i64,
     __lookahead: &i64,
@@ -901,7 +1253,7 @@ fn __action7<
 }
 
 #[allow(clippy::needless_lifetimes, clippy::clone_on_copy)]
-fn __action8<
+fn __action7<
 >(
     __lookbehind: &i64,
     __lookahead: &i64,
@@ -912,7 +1264,7 @@ fn __action8<
 
 #[allow(clippy::too_many_arguments, clippy::needless_lifetimes,
     clippy::just_underscores_and_digits, clippy::clone_on_copy, clippy::unit_arg)]
-fn __action9<
+fn __action8<
 >(
     __0: (i64, Tree, i64),
     __1: (i64, Tok, i64),
@@ -922,14 +1274,22 @@ fn __action9<
 {
     let __start0 = __0.0.clone();
     let __end0 = __0.0.clone();
-    let __temp0 = __action8(
+    let __start1 = __0.2.clone();
+    let __end1 = __1.0.clone();
+    let __temp0 = __action7(
         &__start0,
         &__end0,
     );
     let __temp0 = (__start0, __temp0, __end0);
-    __action1(
+    let __temp1 = __action7(
+        &__start1,
+        &__end1,
+    );
+    let __temp1 = (__start1, __temp1, __end1);
+    __action2(
         __temp0,
         __0,
+        __temp1,
         __1,
         __2,
         __3,
@@ -938,7 +1298,7 @@ fn __action9<
 
 #[allow(clippy::too_many_arguments, clippy::needless_lifetimes,
     clippy::just_underscores_and_digits, clippy::clone_on_copy, clippy::unit_arg)]
-fn __action10<
+fn __action9<
 >(
     __0: (i64, Tree, i64),
     __1: (i64, i64, i64),
@@ -947,12 +1307,36 @@ fn __action10<
 {
     let __start0 = __0.0.clone();
     let __end0 = __0.0.clone();
-    let __temp0 = __action8(
+    let __temp0 = __action7(
         &__start0,
         &__end0,
     );
     let __temp0 = (__start0, __temp0, __end0);
-    __action2(
+    __action3(
+        __temp0,
+        __0,
+        __1,
+        __2,
+    )
+}
+
+#[allow(clippy::too_many_arguments, clippy::needless_lifetimes,
+    clippy::just_underscores_and_digits, clippy::clone_on_copy, clippy::unit_arg)]
+fn __action10<
+>(
+    __0: (i64, i64, i64),
+    __1: (i64, Tok, i64),
+    __2: (i64, i64, i64),
+) -> Tree
+{
+    let __start0 = __0.0.clone();
+    let __end0 = __0.0.clone();
+    let __temp0 = __action7(
+        &__start0,
+        &__end0,
+    );
+    let __temp0 = (__start0, __temp0, __end0);
+    __action4(
         __temp0,
         __0,
         __1,
@@ -972,16 +1356,32 @@ fn __action11<
 {
     let __start0 = __0.0.clone();
     let __end0 = __0.0.clone();
-    let __temp0 = __action8(
+    let __start1 = __0.0.clone();
+    let __end1 = __0.0.clone();
+    let __start2 = __2.2.clone();
+    let __end2 = __3.0.clone();
+    let __temp0 = __action7(
         &__start0,
         &__end0,
     );
     let __temp0 = (__start0, __temp0, __end0);
+    let __temp1 = __action7(
+        &__start1,
+        &__end1,
+    );
+    let __temp1 = (__start1, __temp1, __end1);
+    let __temp2 = __action7(
+        &__start2,
+        &__end2,
+    );
+    let __temp2 = (__start2, __temp2, __end2);
     __action5(
         __temp0,
+        __temp1,
         __0,
         __1,
         __2,
+        __temp2,
         __3,
     )
 }
@@ -990,86 +1390,6 @@ fn __action11<
     clippy::just_underscores_and_digits, clippy::clone_on_copy, clippy::unit_arg)]
 fn __action12<
 >(
-    __0: (i64, Tok, i64),
-    __1: (i64, i64, i64),
-) -> Tree
-{
-    let __start0 = __0.0.clone();
-    let __end0 = __0.0.clone();
-    let __start1 = __0.2.clone();
-    let __end1 = __1.0.clone();
-    let __temp0 = __action8(
-        &__start0,
-        &__end0,
-    );
-    let __temp0 = (__start0, __temp0, __end0);
-    let __temp1 = __action8(
-        &__start1,
-        &__end1,
-    );
-    let __temp1 = (__start1, __temp1, __end1);
-    __action6(
-        __temp0,
-        __0,
-        __temp1,
-        __1,
-    )
-}
-
-#[allow(clippy::too_many_arguments, clippy::needless_lifetimes,
-    clippy::just_underscores_and_digits, clippy::clone_on_copy, clippy::unit_arg)]
-fn __action13<
->(
-    __0: (i64, i64, i64),
-    __1: (i64, Tree, i64),
-    __2: (i64, Tok, i64),
-    __3: (i64, Tree, i64),
-    __4: (i64, i64, i64),
-) -> Tree
-{
-    let __start0 = __0.0.clone();
-    let __end0 = __0.0.clone();
-    let __temp0 = __action8(
-        &__start0,
-        &__end0,
-    );
-    let __temp0 = (__start0, __temp0, __end0);
-    __action3(
-        __temp0,
-        __0,
-        __1,
-        __2,
-        __3,
-        __4,
-    )
-}
-
-#[allow(clippy::too_many_arguments, clippy::needless_lifetimes,
-    clippy::just_underscores_and_digits, clippy::clone_on_copy, clippy::unit_arg)]
-fn __action14<
->(
-    __0: (i64, Tree, i64),
-    __1: (i64, i64, i64),
-) -> Tree
-{
-    let __start0 = __0.0.clone();
-    let __end0 = __0.0.clone();
-    let __temp0 = __action8(
-        &__start0,
-        &__end0,
-    );
-    let __temp0 = (__start0, __temp0, __end0);
-    __action4(
-        __temp0,
-        __0,
-        __1,
-    )
-}
-
-#[allow(clippy::too_many_arguments, clippy::needless_lifetimes,
-    clippy::just_underscores_and_digits, clippy::clone_on_copy, clippy::unit_arg)]
-fn __action15<
->(
     __0: (i64, Tree, i64),
     __1: (i64, Tok, i64),
     __2: (i64, Tree, i64),
@@ -1077,12 +1397,12 @@ fn __action15<
 {
     let __start0 = __2.2.clone();
     let __end0 = __2.2.clone();
-    let __temp0 = __action7(
+    let __temp0 = __action6(
         &__start0,
         &__end0,
     );
     let __temp0 = (__start0, __temp0, __end0);
-    __action9(
+    __action8(
         __0,
         __1,
         __2,
@@ -1092,7 +1412,7 @@ fn __action15<
 
 #[allow(clippy::too_many_arguments, clippy::needless_lifetimes,
     clippy::just_underscores_and_digits, clippy::clone_on_copy, clippy::unit_arg)]
-fn __action16<
+fn __action13<
 >(
     __0: (i64, Tree, i64),
 ) -> Tree
@@ -1101,17 +1421,17 @@ fn __action16<
     let __end0 = __0.2.clone();
     let __start1 = __0.2.clone();
     let __end1 = __0.2.clone();
-    let __temp0 = __action7(
+    let __temp0 = __action6(
         &__start0,
         &__end0,
     );
     let __temp0 = (__start0, __temp0, __end0);
-    let __temp1 = __action7(
+    let __temp1 = __action6(
         &__start1,
         &__end1,
     );
     let __temp1 = (__start1, __temp1, __end1);
-    __action10(
+    __action9(
         __0,
         __temp0,
         __temp1,
@@ -1120,7 +1440,35 @@ fn __action16<
 
 #[allow(clippy::too_many_arguments, clippy::needless_lifetimes,
     clippy::just_underscores_and_digits, clippy::clone_on_copy, clippy::unit_arg)]
-fn __action17<
+fn __action14<
+>(
+    __0: (i64, Tok, i64),
+) -> Tree
+{
+    let __start0 = __0.0.clone();
+    let __end0 = __0.0.clone();
+    let __start1 = __0.2.clone();
+    let __end1 = __0.2.clone();
+    let __temp0 = __action6(
+        &__start0,
+        &__end0,
+    );
+    let __temp0 = (__start0, __temp0, __end0);
+    let __temp1 = __action6(
+        &__start1,
+        &__end1,
+    );
+    let __temp1 = (__start1, __temp1, __end1);
+    __action10(
+        __temp0,
+        __0,
+        __temp1,
+    )
+}
+
+#[allow(clippy::too_many_arguments, clippy::needless_lifetimes,
+    clippy::just_underscores_and_digits, clippy::clone_on_copy, clippy::unit_arg)]
+fn __action15<
 >(
     __0: (i64, Tok, i64),
     __1: (i64, Tree, i64),
@@ -1129,7 +1477,7 @@ fn __action17<
 {
     let __start0 = __2.2.clone();
     let __end0 = __2.2.clone();
-    let __temp0 = __action7(
+    let __temp0 = __action6(
         &__start0,
         &__end0,
     );
@@ -1138,78 +1486,6 @@ fn __action17<
         __0,
         __1,
         __2,
-        __temp0,
-    )
-}
-
-#[allow(clippy::too_many_arguments, clippy::needless_lifetimes,
-    clippy::just_underscores_and_digits, clippy::clone_on_copy, clippy::unit_arg)]
-fn __action18<
->(
-    __0: (i64, Tok, i64),
-) -> Tree
-{
-    let __start0 = __0.2.clone();
-    let __end0 = __0.2.clone();
-    let __temp0 = __action7(
-        &__start0,
-        &__end0,
-    );
-    let __temp0 = (__start0, __temp0, __end0);
-    __action12(
-        __0,
-        __temp0,
-    )
-}
-
-#[allow(clippy::too_many_arguments, clippy::needless_lifetimes,
-    clippy::just_underscores_and_digits, clippy::clone_on_copy, clippy::unit_arg)]
-fn __action19<
->(
-    __0: (i64, Tree, i64),
-    __1: (i64, Tok, i64),
-    __2: (i64, Tree, i64),
-) -> Tree
-{
-    let __start0 = __0.0.clone();
-    let __end0 = __0.0.clone();
-    let __start1 = __2.2.clone();
-    let __end1 = __2.2.clone();
-    let __temp0 = __action7(
-        &__start0,
-        &__end0,
-    );
-    let __temp0 = (__start0, __temp0, __end0);
-    let __temp1 = __action7(
-        &__start1,
-        &__end1,
-    );
-    let __temp1 = (__start1, __temp1, __end1);
-    __action13(
-        __temp0,
-        __0,
-        __1,
-        __2,
-        __temp1,
-    )
-}
-
-#[allow(clippy::too_many_arguments, clippy::needless_lifetimes,
-    clippy::just_underscores_and_digits, clippy::clone_on_copy, clippy::unit_arg)]
-fn __action20<
->(
-    __0: (i64, Tree, i64),
-) -> Tree
-{
-    let __start0 = __0.2.clone();
-    let __end0 = __0.2.clone();
-    let __temp0 = __action7(
-        &__start0,
-        &__end0,
-    );
-    let __temp0 = (__start0, __temp0, __end0);
-    __action14(
-        __0,
         __temp0,
     )
 }
